@@ -216,6 +216,30 @@ pub async fn crash_history(ctx: &mut Ctx, root: &std::path::Path, tag: &str) {
             }
         }
     }
+    // ---------------- C05/C06: crash inside the creation of the next segment (rollover / first start)
+    for variant in ["empty-dir", "zero-file", "zero-file+empty-indexes"] {
+        if !thorough && ctx.rng.chance(1, 2) { continue; }
+        let cdir = root.join(format!("newseg-{tag}-{variant}"));
+        let _ = std::fs::remove_dir_all(&cdir);
+        copy_dir(&w.dir, &cdir);
+        let nd = cdir.join("buckets/00000/segments").join(format!("{:010}", live_id + 1));
+        std::fs::create_dir_all(&nd).unwrap();
+        if variant != "empty-dir" { std::fs::write(nd.join("data.evts"), vec![0u8; w.cfg.segsize]).unwrap(); }
+        if variant == "zero-file+empty-indexes" { for f in ["index.eidx", "partition.pidx", "stream.sidx"] { std::fs::write(nd.join(f), b"").unwrap(); } }
+        let mut w2 = World { cfg: Cfg { nb: 1, segsize: w.cfg.segsize, compression: w.cfg.compression, sync_ms: 5 }, dir: cdir.clone(), db: None, spec: w.spec.clone(),
+            pkeys: w.pkeys.clone(), next_event_idx: w.next_event_idx + 2000, hist: w.hist.clone(), key: w.key.clone(), acked: vec![] };
+        let what = format!("crash while creating segment {} ({variant})", live_id + 1);
+        w2.hist.push(format!("st newseg {variant}"));
+        ctx.emit(&format!("st idxcut newseg {variant}"), "ok");
+        ctx.stat("new_segment_crash_variants");
+        match open_db(&cdir, &w2.cfg) {
+            Ok(db) => { w2.db = Some(db); ctx.id_override = Some("C06".into()); if verify_recovered(ctx, &mut w2, "C06", &what).await { ctx.stat("new_segment_variant_recovered_ok"); } ctx.id_override = None; }
+            Err(e) => { let mut h = w2.hist.clone(); h.push(format!("# {what}")); ctx.oracle_fail(&format!("C06:{}", w.key), &format!("{what}: reopening failed: {e}"), &h); }
+        }
+        if let Some(db) = w2.db.take() { db.shutdown().await; }
+        ctx.emit("st restore", "ok");
+        let _ = std::fs::remove_dir_all(&cdir);
+    }
     ctx.stat_add("rollovers_in_crash_histories", rollovers.len() as u64);
     ctx.nontrivial(&w.hist.join(";"));
     let _ = std::fs::remove_dir_all(&w.dir);
